@@ -16,7 +16,7 @@ def conditions(tier, seed):
     spec = [('rename', 'check_rename', 'rename every attribute to a symbolic name', ['s'], ['si']),
             ('retype', 'check_retype', 'retype every base attribute to each of 9 data types; referential attributes follow', [], ['bi', 'ti']),
             ('reftype', 'check_reftype', 'set the own data type of every referential attribute to each of 9 data types: the declaration keeps following the referred attribute', [], ['ri', 'ti']),
-            ('enum', 'check_enum', 'append / swap / rename enumerators (R56 chain)', ['s'], ['op']),
+            ('enum', 'check_enum', 'append / swap / rename / remove all enumerators (R56 chain)', ['s'], ['op']),
             ('udt', 'check_udt', 'add a user-defined type (3 names) on 4 kinds of base type, re-base one, place it two packages below the component (declared once) or one / two packages deep in a sibling component (not declared)', [], ['bi', 'ni']),
             ('scope', 'check_scope', 'move each class out of the component, into a component nested in it (no change) or into a sibling component / make an attribute derived / unedited baseline vs reviewed expectation + well-formed XML', [], ['ci', 'how'])]
     out = [Cond(n, 'c20_xsd.py', dict(edit=n), func=f, timeout=t, bound=b, symbolic=s, case_split=c,
